@@ -1,6 +1,6 @@
 (* Model/Elementwise.v — executable model of serif's elementwise machinery (C05, C06):
      vector.py  _reverse_* helpers, the arithmetic dunder table, _elementwise_operation,
-                __radd__ (own body), __rmul__ (reuses __mul__), _unary_operation,
+                __radd__ (own body), _unary_operation,
                 MethodProxy.__call__, Vector.__getattr__, the explicit _String/_Date
                 wrappers, _Date.__add__
      table.py   _table_elementwise_operation
@@ -61,7 +61,7 @@ Definition dunder_eqb (a b : dunder) : bool :=
 (* the function object a dunder hands to _elementwise_operation as op_func *)
 Inductive opfunc :=
 | Operator (o : bop)      (* operator.add, operator.sub, ... *)
-| Reverse (o : bop).      (* _reverse_sub, _reverse_truediv, ... (vector.py:35-48) *)
+| Reverse (o : bop).      (* _reverse_mul, _reverse_sub, _reverse_truediv, ... (vector.py:35-51) *)
 
 (* how a dunder is implemented *)
 Inductive route :=
@@ -78,7 +78,7 @@ Definition dispatch_table : list (dunder * route) :=
     (Plain Mod,      ViaElementwise (Operator Mod));
     (Plain Pow,      ViaElementwise (Operator Pow));
     (Refl Add,       OwnRadd);
-    (Refl Mul,       ViaElementwise (Operator Mul));      (* def __rmul__: return self.__mul__(other) *)
+    (Refl Mul,       ViaElementwise (Reverse Mul));
     (Refl Sub,       ViaElementwise (Reverse Sub));
     (Refl TrueDiv,   ViaElementwise (Reverse TrueDiv));
     (Refl FloorDiv,  ViaElementwise (Reverse FloorDiv));
@@ -333,7 +333,7 @@ Definition add_days (s y : option Z) : sres (option Z) :=
 
 Definition date_add (xs : list (option Z)) (other : date_operand) : date_outcome :=
   match other with
-  | DVec None _ => DErrRaise                     (* other.schema() is None: AttributeError on .kind *)
+  | DVec None _ => DSuper                        (* other.schema() is None (untyped, empty vector) *)
   | DVec (Some KInt) ys =>
       if negb (length xs =? length ys) then DErrLen
       else match zip_strict xs ys with
